@@ -58,9 +58,25 @@ def padAfterColon (cs : Choices) : Bytes × Choices :=
   let (c, cs) := pick 4 cs
   (match c with | 0 => [32] | 1 => [] | 2 => [32, 32] | _ => [9], cs)
 
+/-- white space at the end of a line, in front of the line terminator: nothing, ASCII
+    blanks, or one of the Unicode `White_Space` runes (UTF-8): U+00A0, U+0085, U+2003,
+    U+2028, U+3000, and the ASCII controls VT and FF.  All of them are runes for which Go's
+    `unicode.IsSpace` holds, so `TrimSpace` / `TrimRightFunc(…, unicode.IsSpace)` must
+    remove them. -/
 def trailing (cs : Choices) : Bytes × Choices :=
-  let (c, cs) := pick 4 cs
-  (match c with | 1 => [32] | 2 => [9] | _ => [], cs)
+  let (c, cs) := pick 12 cs
+  (match c with
+    | 1 => [32]
+    | 2 => [9]
+    | 4 => [32, 32]
+    | 5 => [194, 160]            -- U+00A0 no-break space
+    | 6 => [194, 133]            -- U+0085 next line
+    | 7 => [226, 128, 131]       -- U+2003 em space
+    | 8 => [226, 128, 168]       -- U+2028 line separator
+    | 9 => [227, 128, 128]       -- U+3000 ideographic space
+    | 10 => [11]                 -- VT
+    | 11 => [12]                 -- FF
+    | _ => [], cs)
 
 def renderConts : List Bytes → Choices → Bytes × Choices
   | [], cs => ([], cs)
